@@ -112,7 +112,24 @@ func (j *judgeCtx) buildLife() {
 		}
 	}
 	cancelled := false
-	for i, c := range j.lcalls {
+	pendingStop := false // a cancelled context stops the worker asynchronously: known again at the next quiescent point
+	li := 0
+	for _, c := range j.r.calls {
+		if c.K == opSettle || (c.K == opSample && c.AtRest) {
+			if pendingStop && c.Ret != 0 {
+				pendingStop = false
+				if st != lsI {
+					st = lsS
+				}
+				j.life = append(j.life, lifeSeg{c.Inv, st})
+			}
+			continue
+		}
+		if !isLifecycle(c.K) {
+			continue
+		}
+		i := li
+		li++
 		overl := false
 		for k, o := range j.lcalls {
 			if k != i && o.Inv < c.Inv && (o.Ret == 0 || o.Ret > c.Inv) {
@@ -142,22 +159,21 @@ func (j *judgeCtx) buildLife() {
 			next = lsR
 		case opCancelCtx:
 			cancelled = true
-			if st != lsI {
-				next = lsS
-			}
 		case opBind:
 			if st == lsI {
 				next = lsR
 			}
-		}
-		if cancelled && next != lsI {
-			next = lsS
 		}
 		if st == lsU && c.K != opRestart && c.K != opStop && c.K != opWaitAndStop {
 			next = lsU
 		}
 		if overl {
 			next = lsU
+		}
+		if cancelled && next != lsI && next != lsS {
+			// (a Restart derives its context from the cancelled parent: stopped again)
+			next = lsU
+			pendingStop = true
 		}
 		st = next
 		j.life = append(j.life, lifeSeg{c.Ret, st})
@@ -219,7 +235,7 @@ func (j *judgeCtx) maybePurged(s *Sub) bool {
 	if s.Purged != 0 {
 		return true
 	}
-	q := j.wd.qs[s.Q%len(j.wd.qs)]
+	q := j.qOf(s)
 	if q.rq != nil || q.ad != nil {
 		return false
 	}
@@ -234,6 +250,19 @@ func (j *judgeCtx) maybePurged(s *Sub) bool {
 // accepted: the submission was surely accepted.  Batch items on unwrapped
 // queues report nothing individually: they are surely accepted when no
 // queue.Close had been invoked by the time AddAll returned.
+var noQueue = &qh{idx: -1}
+
+func (j *judgeCtx) qOf(s *Sub) *qh {
+	if len(j.wd.qs) == 0 {
+		return noQueue
+	}
+	q := s.Q
+	if q < 0 {
+		q = -q
+	}
+	return j.wd.qs[q%len(j.wd.qs)]
+}
+
 func (j *judgeCtx) accepted(s *Sub) bool {
 	if !s.Submitted {
 		return false
@@ -241,7 +270,7 @@ func (j *judgeCtx) accepted(s *Sub) bool {
 	if s.AcceptKnown {
 		return s.Accepted
 	}
-	q := j.wd.qs[s.Q%len(j.wd.qs)]
+	q := j.qOf(s)
 	return q.closeInv == 0 || q.closeInv > s.AddRet
 }
 
@@ -253,14 +282,14 @@ func (j *judgeCtx) maybeAccepted(s *Sub) bool {
 	if s.AcceptKnown {
 		return s.Accepted
 	}
-	q := j.wd.qs[s.Q%len(j.wd.qs)]
+	q := j.qOf(s)
 	return q.closeRet == 0 || q.closeRet > s.AddInv
 }
 
 // reexecAllowed: at-least-once delivery is legitimate for this submission
 // (acknowledging adapter with refused acks / crash).
 func (j *judgeCtx) reexecAllowed(s *Sub) bool {
-	q := j.wd.qs[s.Q%len(j.wd.qs)]
+	q := j.qOf(s)
 	return q.ad != nil && (q.cfg.FAck > 0 || j.wd.crashes > 0)
 }
 
@@ -317,6 +346,8 @@ func (j *judgeCtx) checkExecution() {
 			j.add("C03.a", j.final, "%s", msg)
 			j.add("C09.c", j.final, "%s", msg)
 			j.add("C10.e", j.final, "%s", msg)
+			j.add("C14.d", j.final, "%s", msg)
+			j.add("C18.d", j.final, "%s", msg)
 		}
 	}
 	// C10.e second half: removed by a purge but never cancelled (handle never released)
@@ -541,7 +572,7 @@ func (j *judgeCtx) maybePurgedUnwrapped(s *Sub) bool { return s.Purged == 0 && j
 // batchItemRejectable: acceptance of the item is unobservable and a queue
 // Close overlapped/preceded its enqueue, so it may have been rejected.
 func (j *judgeCtx) batchItemRejectable(s *Sub) bool {
-	q := j.wd.qs[s.Q%len(j.wd.qs)]
+	q := j.qOf(s)
 	if q.rq != nil || q.ad != nil {
 		return false
 	}
@@ -773,7 +804,7 @@ func (j *judgeCtx) checkCancel() {
 			continue
 		}
 		for _, s := range wd.subs {
-			if wd.qs[s.Q%len(wd.qs)] != q || !s.Submitted {
+			if j.qOf(s) != q || !s.Submitted {
 				continue
 			}
 			if s.AddInv > q.closeRet && s.Batch < 0 {
@@ -882,7 +913,7 @@ func (j *judgeCtx) checkCounters() {
 	addsInvokedBy := func(q int, seq uint64) int {
 		n := 0
 		for _, s := range wd.subs {
-			if s.AddInv != 0 && s.AddInv <= seq && (q < 0 || s.Q%len(wd.qs) == q) {
+			if s.AddInv != 0 && s.AddInv <= seq && (q < 0 || j.qOf(s).idx == q) {
 				n++
 			}
 		}
@@ -980,7 +1011,7 @@ func (j *judgeCtx) oldestInflight(seq uint64) uint64 {
 func (j *judgeCtx) pendingBounds(q int, seq uint64) (lo, hi int, exact bool) {
 	exact = true
 	for _, s := range j.wd.subs {
-		qq := j.wd.qs[s.Q%len(j.wd.qs)]
+		qq := j.qOf(s)
 		if q >= 0 && qq.idx != q {
 			continue
 		}
@@ -1168,7 +1199,7 @@ func (j *judgeCtx) checkOutcomes() {
 			}
 			continue
 		}
-		if wd.qs[s.Q%len(wd.qs)].cfg.Kind >= qkDist {
+		if j.qOf(s).cfg.Kind >= qkDist {
 			continue // distributed producers do not use the worker's generator
 		}
 		// generated id: a value the generator returned to this Add (same task, within the call), used by no other job
